@@ -623,7 +623,9 @@ private theorem split_fields_regular (b : Block) (seen : List Bytes) (acc ps fs 
       exact pseudoSeq_tail (g :: rest) seen (by unfold pseudoSeqOk; simpa [hg] using hseq)
 
 /-- Forwarding an HTTP/2 request over HTTP/2: the block written is the pseudo-headers followed by the fields as
-    received, and it decodes to the very same request. -/
+    received, and it decodes to the very same request.  (The differential run drives transparent mode, where the scheme
+    comes from the transport: the driver prints `formatH2Request { r with scheme := sHttp } true`, so the instances
+    exercised against the code are those with `r.scheme = http`; the theorem holds for every scheme.) -/
 theorem h2_to_h2 (authOk : Bool) (b : Block) (r : Req)
     (hv : h2ValidReq b = true) (hp : parseH2Request authOk b = some r) :
     formatH2Request r true =
@@ -803,7 +805,7 @@ private theorem parse_fields (authOk : Bool) (b : Block) (r : Req) (hp : parseH2
 
 private theorem cl_law_core (b : Block) (ps fs : List Field) (body : Bytes)
     (hall : b.all fieldOk = true) (hs : splitPseudo b [] = some (ps, fs))
-    (hck : h2ClOk false b body.length = true)
+    (hck : h2ClOk false b body.length (endOnTrailers := false) = true)
     (hguard : body = [] → ∀ v ∈ valuesOf sCL b, Ref.parseDec v = some 0) :
     ∀ g, fs.filter (nameIs sCL) = [g] → Ref.parseDec g.2 = some body.length := by
   obtain ⟨pre, hb, hpre⟩ := splitPseudo_shape b [] ps fs hs
@@ -856,19 +858,22 @@ private theorem cl_law_core (b : Block) (ps fs : List Field) (body : Bytes)
 /-- The hypothesis `ClLaw` of `h2_to_h1_single_message` follows from the check hyper-h2 really makes (`h2ClOk`, the
     transcription of `_track_content_length` the differential run ties to the library on every case) — except for
     the one input class where hyper-h2 makes no check at all: no DATA frame (END_STREAM on the HEADERS frame) with a
-    non-zero content-length, finding F-C06c, excluded by `hguard`. -/
+    non-zero content-length, finding F-C06c, excluded by `hguard`.  `endOnTrailers := false`: the stream is ended by a DATA
+    frame.  For a stream ended by a TRAILERS frame hyper-h2 only checks "not more than announced" and the law is false —
+    findings F-C06d/e, see `cl_law_trailers_counterexample`. -/
 theorem cl_law_from_h2_check (authOk : Bool) (b : Block) (body : Bytes) (r : Req)
     (hv : h2ValidReq b = true) (hp : parseH2Request authOk b = some r)
-    (hck : h2ClOk false b body.length = true)
+    (hck : h2ClOk false b body.length (endOnTrailers := false) = true)
     (hguard : body = [] → ∀ v ∈ valuesOf sCL b, Ref.parseDec v = some 0) : ClLaw r body := by
   obtain ⟨ps, hs⟩ := parse_fields authOk b r hp
   simp only [h2ValidReq, Bool.and_eq_true] at hv
   exact cl_law_core b ps r.fields body hv.1.1.1.1 hs hck hguard
 
-/-- … and `RespClLaw` of `h2_to_h1_response_single_message` likewise (the excluded class is finding F-C06b) -/
+/-- … and `RespClLaw` of `h2_to_h1_response_single_message` likewise (the excluded classes are findings F-C06b — `hguard` —
+    and F-C06d — `endOnTrailers := false`) -/
 theorem resp_cl_law_from_h2_check (b : Block) (body : Bytes) (st : Nat) (fs : List Field)
     (hv : h2ValidResp b = true) (hp : parseH2Response b = some (st, fs))
-    (hck : h2ClOk false b body.length = true)
+    (hck : h2ClOk false b body.length (endOnTrailers := false) = true)
     (hguard : body = [] → ∀ v ∈ valuesOf sCL b, Ref.parseDec v = some 0) :
     ∀ g, fs.filter (nameIs sCL) = [g] → Ref.parseDec g.2 = some body.length := by
   have hs : ∃ ps, splitPseudo b [] = some (ps, fs) := by
@@ -887,10 +892,11 @@ theorem resp_cl_law_from_h2_check (b : Block) (body : Bytes) (st : Nat) (fs : Li
   simp only [h2ValidResp, Bool.and_eq_true] at hv
   exact cl_law_core b ps fs body hv.1.1 hs hck hguard
 
-/-- `h2_to_h1_single_message` with the content-length law replaced by hyper-h2's own (transcribed, tied) check -/
+/-- `h2_to_h1_single_message` with the content-length law replaced by hyper-h2's own (transcribed, tied) check, for a
+    stream ended by a DATA frame (`endOnTrailers := false`; not for F-C06c — `hguard` — nor F-C06e — ended by trailers) -/
 theorem h2_to_h1_single_message_checked (authOk : Bool) (b : Block) (body : Bytes) (r : Req)
     (hv : h2ValidReq b = true) (hp : parseH2Request authOk b = some r)
-    (hval : validateRequest r false = true) (hck : h2ClOk false b body.length = true)
+    (hval : validateRequest r false = true) (hck : h2ClOk false b body.length (endOnTrailers := false) = true)
     (hguard : body = [] → ∀ v ∈ valuesOf sCL b, Ref.parseDec v = some 0) :
     h2ToH1 authOk b body = some (assembleRequestHead r.method r.path sHttp11 (toH1Fields r body) ++ body) ∧
     Ref.parse (assembleRequestHead r.method r.path sHttp11 (toH1Fields r body) ++ body)
@@ -930,7 +936,12 @@ theorem h2_to_h2_trailers (t : Block) (hv : h2ValidTrailers t = true) :
 
 /-- Converting / sending a recorded request to an HTTP/1 or HTTP/2 hop leaves the stored request unchanged, and — over
     any history of sends of the same flow (live exchange, then any number of replays to any hops) — every send emits
-    exactly what the first send to that hop would have emitted: the conversion is a function of the message alone. -/
+    exactly what the first send to that hop would have emitted: the conversion is a function of the message alone.
+    RESTATEMENT OF A MODELLING DECISION, not a proof about the code: `sendRequest` returns its argument `r` literally (the
+    model has no mutation that could change it) and `sendRequest` / `sendAll` / `Hop` are not run by the driver (only their
+    components `h2ToH1`-style assembly and `formatH2Request` are).  That the CODE converts copies (`request.copy()`,
+    `headers.copy()`) is carried by the oracle's stored-before/after clause and by the replay passes, which compare every
+    later send of the real flow with the model's first send. -/
 theorem conversion_keeps_message (r : Req) (fromH2 : Bool) (body : Bytes) (hops : List Hop) :
     (∀ h, (sendRequest r fromH2 body h).1 = r)
     ∧ (sendAll r fromH2 body hops).1 = r
@@ -1053,6 +1064,98 @@ theorem status_preserved (b : Block) (st : Nat) (fs : List Field) (hp : parseH2R
 
 /-! ### responses towards an HTTP/1 client: the response-stream side of the reference reader -/
 
+/-! ### responses written over HTTP/2 decode to the same status and fields (audit round 6) -/
+
+private theorem digit_facts : ∀ x : Fin 10,
+    isDigit (UInt8.ofNat (48 + x.val)) = true ∧ decVal (UInt8.ofNat (48 + x.val)) = x.val ∧
+    (x.val ≠ 0 → UInt8.ofNat (48 + x.val) ≠ 48) := by decide +kernel
+
+private theorem parse_status_block (a b' c : UInt8) (ha : isDigit a = true) (hb : isDigit b' = true)
+    (hc : isDigit c = true) (hne : a ≠ 48) (fs : List Field) (hreg : ∀ f ∈ fs, isPseudo f = false) :
+    parseH2Response ((pStatus, [a, b', c]) :: fs) = some (decVal a * 100 + decVal b' * 10 + decVal c, fs) := by
+  have hs := splitPseudo_regular fs [(pStatus, [a, b', c])] hreg
+  have hps : ∀ v, isPseudo (pStatus, v) = true := fun v => by simp [isPseudo, pStatus]
+  have hsp : splitPseudo ((pStatus, [a, b', c]) :: fs) [] = some ([(pStatus, [a, b', c])], fs) := by
+    simp [splitPseudo, hps, hs]
+  have hne' : (a != 48) = true := by simpa using hne
+  simp [parseH2Response, hsp, lookup, without, ha, hb, hc, hne']
+
+/-- **h2_to_h2_response.** Forwarding an HTTP/2 response over HTTP/2: the block written is `:status` with the same three
+    digits followed by the fields exactly as received, and it decodes to the very same status and field list. -/
+theorem h2_to_h2_response (b : Block) (st : Nat) (fs : List Field)
+    (hv : h2ValidResp b = true) (hp : parseH2Response b = some (st, fs)) :
+    formatH2Response st fs true = (pStatus, natDec st) :: fs ∧
+    parseH2Response (formatH2Response st fs true) = some (st, fs) := by
+  obtain ⟨ps, a, b', c, hs, hl, hcond, hst⟩ := parseH2Response_some b st fs hp
+  obtain ⟨x, hx, hxv⟩ := digit_fin a hcond.1.1.1.1
+  obtain ⟨y, hy, hyv⟩ := digit_fin b' hcond.1.1.1.2
+  obtain ⟨z, hz, hzv⟩ := digit_fin c hcond.1.1.2
+  have hx0 : x.val ≠ 0 := by
+    intro h0; apply hcond.1.2; rw [hx, h0]; rfl
+  have hdec : natDec st = [UInt8.ofNat (48 + x.val), UInt8.ofNat (48 + y.val), UInt8.ofNat (48 + z.val)] := by
+    rw [← hst, hxv, hyv, hzv, dec3 x y z hx0]
+  simp only [h2ValidResp, Bool.and_eq_true] at hv
+  have hreg : ∀ f ∈ fs, isPseudo f = false := split_fields_regular b [] [] ps fs hv.1.2 hs
+  have hmem := (splitPseudo_mem b [] ps fs hs).2
+  have hnormfs : normalizeH2 fs = fs := by
+    unfold normalizeH2
+    have : ∀ f ∈ fs, (if pyIsLower f.1 then f else (lower f.1, f.2)) = f := by
+      intro f hf
+      split
+      · rfl
+      · have hok := (List.all_eq_true.mp hv.1.1) f (hmem f hf)
+        simp only [fieldOk, Bool.and_eq_true, h2NameOk] at hok
+        have hname := hok.1.1.1.1.1
+        have : lower f.1 = f.1 := by
+          unfold lower asciiLower
+          conv => rhs; rw [← List.map_id f.1]
+          apply List.map_congr_left
+          intro c hc
+          have := (List.all_eq_true.mp hname) c hc
+          simp only [Bool.and_eq_true, Bool.not_eq_true', decide_eq_true_eq] at this
+          unfold asciiLowerB
+          have h1 : ¬(65 ≤ c.toNat ∧ c.toNat ≤ 90) := by
+            intro h; have := this.1.1; simp [h.1, h.2] at this
+          simp [h1]
+        rw [this]
+    conv => rhs; rw [← List.map_id fs]
+    exact List.map_congr_left this
+  have hfmt : formatH2Response st fs true = (pStatus, natDec st) :: fs := by
+    have hl' : pyIsLower pStatus = true := by decide
+    have : normalizeH2 ((pStatus, natDec st) :: fs) = (pStatus, natDec st) :: normalizeH2 fs := by
+      simp [normalizeH2, hl']
+    simp only [formatH2Response, if_true]
+    rw [this, hnormfs]
+  refine ⟨hfmt, ?_⟩
+  have hdec' : natDec st = [a, b', c] := by rw [hdec, ← hx, ← hy, ← hz]
+  rw [hfmt, hdec', parse_status_block a b' c hcond.1.1.1.1 hcond.1.1.1.2 hcond.1.1.2 hcond.1.2 fs hreg, hst]
+
+/-- **h1_to_h2_response.** The header block written over HTTP/2 for an HTTP/1 response (any three-digit status, field
+    names that are tokens) decodes to the same status and to the fields lower-cased, stripped and without the
+    connection-specific ones — in the original order. -/
+theorem h1_to_h2_response (st : Nat) (fs : List Field) (hst : 100 ≤ st ∧ st ≤ 999)
+    (htok : ∀ f ∈ fs, isToken f.1 = true) :
+    formatH2Response st fs false = (pStatus, natDec st) :: normalizeH1 fs ∧
+    parseH2Response (formatH2Response st fs false) = some (st, normalizeH1 fs) := by
+  let x : Fin 10 := ⟨st / 100, by omega⟩
+  let y : Fin 10 := ⟨st / 10 % 10, by omega⟩
+  let z : Fin 10 := ⟨st % 10, by omega⟩
+  have hx0 : x.val ≠ 0 := by show st / 100 ≠ 0; omega
+  have hsum : x.val * 100 + y.val * 10 + z.val = st := by show st / 100 * 100 + st / 10 % 10 * 10 + st % 10 = st; omega
+  have hdec : natDec st = [UInt8.ofNat (48 + x.val), UInt8.ofNat (48 + y.val), UInt8.ofNat (48 + z.val)] := by
+    rw [← hsum]; exact dec3 x y z hx0
+  have hname : pyStrip (lower pStatus) = pStatus := by decide
+  have hfmt : formatH2Response st fs false = (pStatus, natDec st) :: normalizeH1 fs := by
+    simp only [formatH2Response, Bool.false_eq_true, if_false, normalizeH1, List.map_cons, List.filter_cons]
+    rw [hname, hdec, strip3 x y z]
+    have hnm : pStatus ∉ Gen.C06.connectionHeaders := by decide
+    simp [hnm]
+  refine ⟨hfmt, ?_⟩
+  obtain ⟨dx, vx, nx⟩ := digit_facts x
+  obtain ⟨dy, vy, _⟩ := digit_facts y
+  obtain ⟨dz, vz, _⟩ := digit_facts z
+  rw [hfmt, hdec, parse_status_block _ _ _ dx dy dz (nx hx0) _ (normalizeH1_regular fs htok), vx, vy, vz, hsum]
+
 private theorem valid_values_resp (b : Block) (hv : h2ValidResp b = true) :
     ∀ f ∈ b, ∀ c ∈ f.2, c ≠ 0 ∧ c ≠ 10 ∧ c ≠ 13 := by
   intro f hf c hc
@@ -1169,12 +1272,13 @@ theorem h2_to_h1_response_single_message (method : Bytes) (b : Block) (body : By
   exact ref_parse_resp_assembled line st _ method fs _ fr _ hline hlne sp.2.1 hfinal hconn hclean hfr hb
 
 /-- `h2_to_h1_response_single_message` with the content-length law replaced by hyper-h2's own (transcribed, tied)
-    check; the excluded input class is finding F-C06b -/
+    check, for a stream ended by a DATA frame (`endOnTrailers := false`); the excluded input classes are findings F-C06b
+    (`hguard`) and F-C06d (ended by trailers) -/
 theorem h2_to_h1_response_single_message_checked (method : Bytes) (b : Block) (body : Bytes) (st : Nat) (fs : List Field)
     (hv : h2ValidResp b = true) (hp : parseH2Response b = some (st, fs))
     (hval : validateHeaders fs false false (decide (100 ≤ st ∧ st ≤ 199) || st = 204) = true)
     (hfinal : 200 ≤ st) (hconn : (asciiUpper method == sConnect) = false)
-    (hck : h2ClOk false b body.length = true)
+    (hck : h2ClOk false b body.length (endOnTrailers := false) = true)
     (hguard : body = [] → ∀ v ∈ valuesOf sCL b, Ref.parseDec v = some 0) :
     h2RespToH1 method b body
       = some (assembleResponseHead sHttp11 st (reason st) fs ++ (if bodiless method st then [] else body)) ∧
@@ -1273,5 +1377,32 @@ example : RespClLaw [(sCL, [50]), ([120], [49])] [97, 98] :=
 example : closeAfter [71, 69, 84] 200 [(sCL, [50]), ([120], [49])] = false ∧
     (h2RespToH1 [71, 69, 84] auResp [97, 98]).map (Ref.parseResp false [[71, 69, 84]]) =
       some (some [⟨sHttp11, 200, [79, 75], [(sCL, [50]), ([120], [49])], [97, 98]⟩]) := by decide
+
+/-! ### owner fixes after the round-6 audit -/
+
+/-- The full statement one would like — "whatever ends the stream, hyper-h2's content-length check implies the
+    content-length law" — with `endOnTrailers` universally quantified. -/
+def cl_law_from_h2_check_any_end : Prop :=
+  ∀ (authOk : Bool) (b : Block) (body : Bytes) (r : Req) (endOnTrailers : Bool),
+    h2ValidReq b = true → parseH2Request authOk b = some r → h2ClOk false b body.length endOnTrailers = true →
+    (body = [] → ∀ v ∈ valuesOf sCL b, Ref.parseDec v = some 0) → ClLaw r body
+
+/-- **cl_law_trailers_counterexample** (findings F-C06d/e): it is FALSE.  A request that announces 3 bytes, sends 2 and
+    ends the stream with a trailers frame passes hyper-h2's check (`_track_content_length` only compares at the DATA
+    frame carrying END_STREAM) — `cl_law_from_h2_check` and the `_checked` theorems therefore need
+    `endOnTrailers := false`. -/
+theorem cl_law_trailers_counterexample : ¬ cl_law_from_h2_check_any_end := by
+  intro h
+  have hl := h true auBlockCL [71, 69] auReqCL true (by decide) (by decide) (by decide) (by intro e; cases e)
+  have := hl (sCL, [51]) (by decide)
+  revert this; decide
+
+/-- … and the conversion theorem itself fails on that class: the HTTP/1 bytes written announce 3 body bytes and carry 2,
+    the strict reader does not read them as the one message that was sent (it waits for the third byte). -/
+theorem h2_to_h1_trailers_counterexample :
+    h2ClOk false auBlockCL 2 true = true ∧
+    (h2ToH1 true auBlockCL [71, 69]).map Ref.parse
+      ≠ some (some [⟨auReqCL.method, auReqCL.path, sHttp11, (toH1Fields auReqCL [71, 69]).map readBack, [71, 69]⟩]) := by
+  decide
 
 end MitmVerif.Props.C06
